@@ -952,12 +952,7 @@ def pattern_label2(context, tree):
     return d
 
 
-@isa.pattern(
-    "reg",
-    "FPRELU32",
-    size=4,
-    condition=lambda t: t.value.offset in range(-2048, 2048),
-)
+@isa.pattern("reg", "FPRELU32", size=4)
 def pattern_fpreli32(context, tree):
     d = context.new_reg(RiscvRegister)
     offset = tree.value.offset
@@ -968,12 +963,8 @@ def pattern_fpreli32(context, tree):
 
 
 # Memory patterns:
-@isa.pattern(
-    "mem",
-    "FPRELU32",
-    size=0,
-    condition=lambda t: t.value.offset in range(-2048, 2048),
-)
+# Offsets of frame locations are made to fit when the frame size is known.
+@isa.pattern("mem", "FPRELU32", size=0)
 def pattern_mem_fpreli32(context, tree):
     offset = tree.value.offset
     return FP, offset
